@@ -198,7 +198,7 @@ theorem plm_forwarded (cfg : Config) (s : FState α) (cmd : Cmd α) (ep fr fz : 
       split
       · rw [hpre]
         refine ⟨pre ++ [Out.g92e (n2lAbs r3.1.position.e (cur s.position.e))], ?_, ?_⟩
-        · simp [List.dropLast_concat, List.getLast?_append]
+        · simp [insertBeforeLast_snoc]
         · intro o ho
           rcases List.mem_append.mp ho with ho | ho
           · exact hE o ho
